@@ -518,7 +518,7 @@ func (self Node) Field(id proto.FieldNumber, rootLayer bool, msgDesc *proto.Mess
 			typDesc := fd.Type()
 			if typDesc.IsMap() || typDesc.IsList() {
 				it.p.Read = tagPos
-				if _, err := it.p.SkipAllElements(i, typDesc.IsPacked()); err != nil {
+				if _, err := it.p.SkipAllElementsOf(typDesc); err != nil {
 					return errNode(meta.ErrRead, "SkipAllElements in LIST/MAP failed", err), nil
 				}
 				s = tagPos
@@ -587,7 +587,7 @@ func (self Node) Fields(ids []PathNode, rootLayer bool, msgDesc *proto.MessageDe
 		typDesc := f.Type()
 		if typDesc.IsMap() || typDesc.IsList() {
 			it.p.Read = tagPos
-			if _, err := it.p.SkipAllElements(i, typDesc.IsPacked()); err != nil {
+			if _, err := it.p.SkipAllElementsOf(typDesc); err != nil {
 				return errNode(meta.ErrRead, "SkipAllElements in LIST/MAP failed", err)
 			}
 			s = tagPos
